@@ -21,6 +21,7 @@ import (
 func (in *Interp) hashUF(name string, n int, data SliceV, native func([]byte) []byte) Array {
 	if b, ok := concBytes(data); ok {
 		h := native(b)
+		in.noteConcrete(name, string(b), string(h))
 		a := make(Array, n)
 		for i := range a {
 			a[i] = in.ts.BV(8, uint64(h[i]))
@@ -217,4 +218,25 @@ func registerCrypto(P *Program) {
 		u := in.ts.App("uuidstr", StrSort, in.ts.SConcat(parts...))
 		return u
 	})
+}
+
+// noteConcrete remembers a native evaluation f(in) = out of a function that is otherwise an uninterpreted symbol, so that
+// the injectivity assumption also relates symbolic applications to concrete results (f(x) = out => x = in).
+type concPair struct{ in, out string }
+
+func (in *Interp) noteConcrete(name, arg, res string) {
+	key := "conc:" + name
+	l, _ := in.hooks[key].(*[]concPair)
+	if l == nil {
+		l = &[]concPair{}
+		in.hooks[key] = l
+	}
+	for _, p := range *l {
+		if p.in == arg {
+			return
+		}
+	}
+	if len(*l) < 64 {
+		*l = append(*l, concPair{arg, res})
+	}
 }
